@@ -27,7 +27,7 @@ ASSUMPTIONS = [
     "g = 9.80665 m/s^2",
     "symmetric surfaces: structural_mass counts both halves, distributed loads are the half-span share (fuel incl. reserve "
     "halved), point masses / thrusts are applied in full (the statement halves only the distributed fuel share)",
-    "surface['symmetry'] is a Python bool (WingboxFuelVolDelta tests `is True`)",
+    "surface['symmetry'] is a Python bool or a numpy boolean",
     "per-node consistent-load couples are not asserted (DESIGN.md C16), only their cancellation in the total moment",
 ]
 
@@ -65,6 +65,8 @@ def config(nel=(1, 8)):
             masses=masses(),
             ref_point=st.lists(S.fl(-20.0, 20.0, 0.0), min_size=3, max_size=3),
             loads=B.loads(),
+            # the symmetry flag as a numpy boolean (what a comparison on the mesh gives) instead of a Python bool
+            numpy_flag=st.sampled_from([False, False, True]),
         )
     )
 
@@ -189,6 +191,9 @@ def verdict_components(desc):
     npm = len(pm)
     kw = {"n_point_masses": npm} if npm else {}
     surf = _surface(desc, ny, sym, struct_weight_relief=True, distributed_fuel_weight=True, **kw)
+    if desc.get("numpy_flag"):
+        surf["symmetry"] = np.bool_(sym)
+        out.label("symmetry_flag=numpy.bool_")
     x = _expected(desc, nodes, A, Aint, locs, pm, th, sym)
     p = np.array(desc["ref_point"], float)
     arm = _arm(nodes, locs, p)
@@ -274,6 +279,7 @@ def alone_config():
             masses=masses(3),
             ref_point=st.lists(S.fl(-20.0, 20.0, 0.0), min_size=3, max_size=3),
             loads=B.loads(),
+            numpy_flag=st.sampled_from([False, False, True]),
         )
     )
 
@@ -304,6 +310,9 @@ def verdict_alone(desc):
     if npm:
         kw["n_point_masses"] = npm
     surf = struct_surface("wing", mesh, sym, model=model, **kw)
+    if desc.get("numpy_flag"):
+        surf["symmetry"] = np.bool_(sym)
+        out.label("symmetry_flag=numpy.bool_")
     ext = B.nodal_loads(desc["loads"], ny, 0)
     n = desc["load_factor"]
 
